@@ -150,6 +150,16 @@ def adcSpec (rnd : Rat → Rat) (bits : Nat) (vmin vmax : Rat) (v : XV) : Nat :=
   let y := adcY rnd bits vmin vmax v
   if rnd (fullScale bits) ≤ y then fullScale bits else y.floor.toNat
 
+/-- the image bucket: element width of its unsigned type and the codes -/
+structure Image where
+  width : Nat
+  codes : List (Except String Nat)
+
+/-- `simple_adc`: `detector.image.array = apply_simple_adc(signal, …, dtype)` **rebinds** the bucket to the new
+array (type and all); what the bucket held before (`prev`) is not consulted -/
+def storeSimple (_prev : Option Image) (rnd : Rat → Rat) (bits w : Nat) (vmin vmax : Rat) (frame : List XV) : Image :=
+  ⟨w, frame.map (simpleAdc rnd bits w vmin vmax)⟩
+
 /-- `apply_simple_adc` of the pinned tree: scale first, divide, truncate, cast -/
 def simpleAdcAsIs (rnd : Rat → Rat) (bits w : Nat) (vmin vmax : Rat) (v : XV) : Except String Nat :=
   let d := rnd (clipX vmin vmax v - vmin)
@@ -171,6 +181,10 @@ def sarLoop (rnd : Rat → Rat) (w : Nat) : Nat → Rat → XV → Nat → Nat
 
 def sar (rnd : Rat → Rat) (bits w : Nat) (vmax : Rat) (v : XV) : Nat :=
   sarLoop rnd w bits (rnd (vmax / 2)) v 0
+
+/-- `sar_adc`: `detector.image.array = image_2d`, likewise -/
+def storeSar (_prev : Option Image) (rnd : Rat → Rat) (bits w : Nat) (vmax : Rat) (frame : List XV) : Image :=
+  ⟨w, frame.map (fun v => .ok (sar rnd bits w vmax v))⟩
 
 /-- the same loop with unbounded accumulation: what the code is meant to compute -/
 def sarIdealLoop (rnd : Rat → Rat) : Nat → Rat → XV → Nat → Nat
